@@ -29,6 +29,10 @@ Local Open Scope nat_scope.
 #[local] Arguments str_eqb : simpl never.
 #[local] Arguments existsb : simpl never.
 #[local] Arguments assoc_get : simpl never.
+#[local] Arguments find_def : simpl never.
+#[local] Arguments opt_stmts : simpl never.
+#[local] Arguments drop_pass : simpl never.
+#[local] Arguments freeze_env : simpl never.
 #[local] Arguments mapM : simpl never.
 #[local] Arguments mapR : simpl never.
 #[local] Arguments rbind : simpl never.
@@ -46,24 +50,24 @@ Local Open Scope nat_scope.
 #[local] Arguments tl : simpl never.
 
 Section Frame3.
-Variables (ca cd : nat -> mode) (pf ls : nat -> bool) (cs : list value).
+Variables (ca cd : nat -> mode) (pf ls : nat -> bool) (cs : list value) (defs : list (str * prog)).
 Notation vok := (C17_Inv.vok ca cd pf).
 Notation env_ok := (C17_Inv.env_ok ca cd pf).
-Notation Inv := (C17_Inv.Inv ca cd pf ls cs).
+Notation Inv := (C17_Inv.Inv ca cd pf ls cs defs).
 Notation frame := (C17_Inv.frame ca cd ls).
-Notation good := (C17_Inv.good ca cd pf ls cs).
+Notation good := (C17_Inv.good ca cd pf ls cs defs).
 Notation sok_e := (C17_Inv.sok_e ca cd pf cs).
 Notation sok_args := (C17_Inv.sok_args ca cd pf cs).
 Notation sok_p := (C17_Inv.sok_p ca cd pf cs).
 Notation sok_s := (C17_Inv.sok_s ca cd pf cs).
 Notation dok := (C17_Inv.dok ca cd pf cs).
 Notation sres_ok := (C17_Ops.sres_ok ca cd pf).
-Notation E_spec := (C17_Ops.E_spec ca cd pf ls cs).
-Notation V_spec := (C17_Ops.V_spec ca cd pf ls cs).
-Notation C_spec := (C17_Ops.C_spec ca cd pf ls cs).
-Notation R_spec := (C17_Ops.R_spec ca cd pf ls cs).
-Notation B_spec := (C17_Ops.B_spec ca cd pf ls cs).
-Notation S_spec := (C17_Ops.S_spec ca cd pf ls cs).
+Notation E_spec := (C17_Ops.E_spec ca cd pf ls cs defs).
+Notation V_spec := (C17_Ops.V_spec ca cd pf ls cs defs).
+Notation C_spec := (C17_Ops.C_spec ca cd pf ls cs defs).
+Notation R_spec := (C17_Ops.R_spec ca cd pf ls cs defs).
+Notation B_spec := (C17_Ops.B_spec ca cd pf ls cs defs).
+Notation S_spec := (C17_Ops.S_spec ca cd pf ls cs defs).
 
 Ltac split_sok H :=
   repeat match type of H with
@@ -78,55 +82,53 @@ Proof.
   intros f IHE IHC IHB s0 st Hs HI. destruct s0; simpl.
   - (* SAssign *)
     cbn [C17_Inv.sok_s] in Hs.
-    eapply good_bind; [apply (E_plain ca cd pf ls cs _ _ _ IHE); auto|]. intros v st1 I1 F1 Hv. cbv beta match.
-    destruct (set_var_good ca cd pf ls cs st1 n v I1 Hv) as [I2 F2]. apply ret_none; auto.
+    eapply good_bind; [apply (E_plain ca cd pf ls cs defs _ _ _ IHE); auto|]. intros v st1 I1 F1 Hv. cbv beta match.
+    destruct (set_var_good ca cd pf ls cs defs st1 n v I1 Hv) as [I2 F2]. apply ret_none; auto.
   - (* SAug *)
-    cbn [C17_Inv.sok_s] in Hs. split_sok Hs.
-    destruct (lookup n st) as [old|] eqn:El; [|exact I]. pose proof (lookup_ok ca cd pf ls cs _ _ _ HI El) as Hold.
-    eapply post_bind; [apply IHE; auto|]. intros v st1 [(I1 & F1 & Hv) Hadd]. cbv beta match.
-    eapply good_frame; [exact F1|].
-    eapply good_bind; [apply (apply_bin_good ca cd pf ls cs); auto|]. intros r st2 I2 F2 Hr. cbv beta match.
-    destruct (set_var_good ca cd pf ls cs st2 n r I2 Hr) as [I3 F3]. apply ret_none; auto.
+    cbn [C17_Inv.sok_s] in Hs.
+    destruct (lookup n st) as [old|] eqn:El; [|exact I]. pose proof (lookup_ok ca cd pf ls cs defs _ _ _ HI El) as Hold.
+    eapply good_bind; [apply (E_plain ca cd pf ls cs defs _ _ _ IHE); auto|]. intros v st1 I1 F1 Hv. cbv beta match.
+    eapply good_bind; [apply (apply_bin_good ca cd pf ls cs defs); auto|]. intros r st2 I2 F2 Hr. cbv beta match.
+    destruct (set_var_good ca cd pf ls cs defs st2 n r I2 Hr) as [I3 F3]. apply ret_none; auto.
   - (* SIdxAssign *)
     cbn [C17_Inv.sok_s] in Hs. split_sok Hs.
-    destruct (lookup n st) as [obj|] eqn:El; [|exact I]. pose proof (lookup_ok ca cd pf ls cs _ _ _ HI El) as Hobj.
-    eapply good_bind; [apply (E_plain ca cd pf ls cs _ _ _ IHE); auto|]. intros idx st1 I1 F1 Hidx. cbv beta match.
-    eapply good_bind; [apply (E_plain ca cd pf ls cs _ _ _ IHE); auto|]. intros v st2 I2 F2 Hv. cbv beta match.
+    destruct (lookup n st) as [obj|] eqn:El; [|exact I]. pose proof (lookup_ok ca cd pf ls cs defs _ _ _ HI El) as Hobj.
+    eapply good_bind; [apply (E_plain ca cd pf ls cs defs _ _ _ IHE); auto|]. intros idx st1 I1 F1 Hidx. cbv beta match.
+    eapply good_bind; [apply (E_plain ca cd pf ls cs defs _ _ _ IHE); auto|]. intros v st2 I2 F2 Hv. cbv beta match.
     apply post_bind_pure. intros st3 H3.
-    destruct (vindex_assign_good ca cd pf ls cs _ _ _ _ _ I2 Hobj Hv H3) as [I3 F3]. apply ret_none; auto.
+    destruct (vindex_assign_good ca cd pf ls cs defs _ _ _ _ _ I2 Hobj Hv H3) as [I3 F3]. apply ret_none; auto.
   - (* SIdxAug *)
     cbn [C17_Inv.sok_s] in Hs. split_sok Hs.
-    destruct (lookup n st) as [obj|] eqn:El; [|exact I]. pose proof (lookup_ok ca cd pf ls cs _ _ _ HI El) as Hobj.
-    eapply good_bind; [apply (E_plain ca cd pf ls cs _ _ _ IHE); auto|]. intros idx st1 I1 F1 Hidx. cbv beta match.
-    apply post_bind_pure. intros old Hold. pose proof (vindex_ok ca cd pf ls cs st1 obj idx old I1 Hobj Hold) as Hov.
-    eapply post_bind; [apply IHE; auto|]. intros v st2 [(I2 & F2 & Hv) Hadd]. cbv beta match.
-    eapply good_frame; [exact F2|].
-    eapply good_bind; [apply (apply_bin_good ca cd pf ls cs); auto|]. intros r st3 I3 F3 Hr. cbv beta match.
+    destruct (lookup n st) as [obj|] eqn:El; [|exact I]. pose proof (lookup_ok ca cd pf ls cs defs _ _ _ HI El) as Hobj.
+    eapply good_bind; [apply (E_plain ca cd pf ls cs defs _ _ _ IHE); auto|]. intros idx st1 I1 F1 Hidx. cbv beta match.
+    apply post_bind_pure. intros old Hold. pose proof (vindex_ok ca cd pf ls cs defs st1 obj idx old I1 Hobj Hold) as Hov.
+    eapply good_bind; [apply (E_plain ca cd pf ls cs defs _ _ _ IHE); auto|]. intros v st2 I2 F2 Hv. cbv beta match.
+    eapply good_bind; [apply (apply_bin_good ca cd pf ls cs defs); auto|]. intros r st3 I3 F3 Hr. cbv beta match.
     apply post_bind_pure. intros st4 H4.
-    destruct (vindex_assign_good ca cd pf ls cs _ _ _ _ _ I3 Hobj Hr H4) as [I4 F4]. apply ret_none; auto.
+    destruct (vindex_assign_good ca cd pf ls cs defs _ _ _ _ _ I3 Hobj Hr H4) as [I4 F4]. apply ret_none; auto.
   - (* SUnpack *)
     cbn [C17_Inv.sok_s] in Hs.
-    eapply good_bind; [apply (E_plain ca cd pf ls cs _ _ _ IHE); auto|]. intros v st1 I1 F1 Hv. cbv beta match.
+    eapply good_bind; [apply (E_plain ca cd pf ls cs defs _ _ _ IHE); auto|]. intros v st1 I1 F1 Hv. cbv beta match.
     destruct names as [|n1 [|n2 nr]]; try exact I.
     apply post_bind_pure. intros st2 H2.
-    destruct (unpack_names_good ca cd pf ls cs _ _ _ _ I1 Hv H2) as [I2 F2]. apply ret_none; auto.
+    destruct (unpack_names_good ca cd pf ls cs defs _ _ _ _ I1 Hv H2) as [I2 F2]. apply ret_none; auto.
   - (* SIf *)
     rewrite sok_s_if in Hs. split_sok Hs.
-    eapply good_bind; [apply (E_plain ca cd pf ls cs _ _ _ IHE); auto|]. intros cv st1 I1 F1 Hcv. cbv beta match.
+    eapply good_bind; [apply (E_plain ca cd pf ls cs defs _ _ _ IHE); auto|]. intros cv st1 I1 F1 Hcv. cbv beta match.
     destruct (truthy Asp st1 cv); [apply IHB; auto|].
     clear HI. revert st1 I1 F1. induction elifs as [|[c1 b1] r IH]; intros st1 I1 F1; simpl.
     + apply IHB; auto.
     + cbn [forallb] in Hs1. apply andb_prop in Hs1. destruct Hs1 as [Hcb Hr]. apply andb_prop in Hcb. destruct Hcb as [Hc1 Hb1].
-      eapply good_bind; [apply (E_plain ca cd pf ls cs _ _ _ IHE); auto|]. intros v1 st' I' F' Hv1. cbv beta match.
+      eapply good_bind; [apply (E_plain ca cd pf ls cs defs _ _ _ IHE); auto|]. intros v1 st' I' F' Hv1. cbv beta match.
       destruct (truthy Asp st' v1); [apply IHB; auto|]. apply IH; auto. eapply frame_trans; eauto.
   - (* SFor *)
     rewrite sok_s_for in Hs. split_sok Hs.
-    eapply good_bind; [apply (E_plain ca cd pf ls cs _ _ _ IHE); auto|]. intros itv st1 I1 F1 Hitv. cbv beta match.
-    apply post_bind_pure. intros items Hit. pose proof (iter_items_ok ca cd pf ls cs _ _ _ I1 Hitv Hit) as Hitems.
+    eapply good_bind; [apply (E_plain ca cd pf ls cs defs _ _ _ IHE); auto|]. intros itv st1 I1 F1 Hitv. cbv beta match.
+    apply post_bind_pure. intros items Hit. pose proof (iter_items_ok ca cd pf ls cs defs _ _ _ I1 Hitv Hit) as Hitems.
     clear Hit HI F1. revert st1 I1. induction items as [|li r IH]; intros st1 I1; simpl.
     + apply ret_none; auto. apply frame_refl.
     + inversion Hitems as [|? ? Hli Hr]; subst.
-      apply post_bind_pure. intros st' Hu. destruct (unpack_names_good ca cd pf ls cs _ _ _ _ I1 Hli Hu) as [I2 F2].
+      apply post_bind_pure. intros st' Hu. destruct (unpack_names_good ca cd pf ls cs defs _ _ _ _ I1 Hli Hu) as [I2 F2].
       eapply good_frame; [exact F2|].
       eapply good_bind; [apply IHB; auto|]. intros r0 st'' I3 F3 Hr0. cbv beta match.
       destruct r0; try (apply IH; auto).
@@ -134,39 +136,39 @@ Proof.
       * apply ret_none; auto. apply frame_refl.
   - (* SDef *)
     rewrite sok_s_def in Hs. split_sok Hs.
-    eapply (good_bind ca cd pf ls cs (Forall (fun a : str * fdefault => dok a = true))).
-    + apply (mapM_good ca cd pf ls cs (fun a : str * fdefault => dok a = true)); [exact HI|].
+    eapply (good_bind ca cd pf ls cs defs (Forall (fun a : str * fdefault => dok a = true))).
+    + apply (mapM_good ca cd pf ls cs defs (fun a : str * fdefault => dok a = true)); [exact HI|].
       intros [a oe] Hin st0 I0. rewrite forallb_forall in Hs. specialize (Hs _ Hin). cbn [snd fst] in *.
       destruct oe as [e|]; [|apply good_ret; auto].
       destruct (is_const 32 e).
-      * eapply good_bind; [apply (const_alloc_good ca cd pf ls cs); auto|]. intros v st' I' F' Hv. cbv beta match. apply good_ret; auto.
+      * eapply good_bind; [apply (const_alloc_good ca cd pf ls cs defs); auto|]. intros v st' I' F' Hv. cbv beta match. apply good_ret; auto.
       * apply good_ret; auto.
     + intros formals st1 I1 F1 Hformals. cbv beta match.
       assert (Hfok : fokb ca cd pf ls cs (Func n formals body (cur st1)) = true).
-      { unfold fokb. cbn [f_args f_body f_scope]. rewrite Hs0, (i_cur _ _ _ _ _ _ I1).
+      { unfold fokb. cbn [f_args f_body f_scope]. rewrite Hs0, (i_cur _ _ _ _ _ _ _ I1).
         replace (forallb dok formals) with true; [reflexivity|]. symmetry. apply forallb_forall. rewrite Forall_forall in Hformals. exact Hformals. }
-      destruct (add_func_good ca cd pf ls cs st1 _ I1 Hfok) as (I2 & F2 & Hv).
-      destruct (set_var_good ca cd pf ls cs _ n _ I2 Hv) as [I3 F3].
+      destruct (add_func_good ca cd pf ls cs defs st1 _ I1 Hfok) as (I2 & F2 & Hv).
+      destruct (set_var_good ca cd pf ls cs defs _ n _ I2 Hv) as [I3 F3].
       apply ret_none; auto. eapply frame_trans; eauto.
   - (* SReturn *)
     destruct e as [e|]; simpl.
     + cbn [C17_Inv.sok_s] in Hs.
-      eapply good_bind; [apply (E_plain ca cd pf ls cs _ _ _ IHE); auto|]. intros v st1 I1 F1 Hv. cbv beta match. apply good_ret; auto.
+      eapply good_bind; [apply (E_plain ca cd pf ls cs defs _ _ _ IHE); auto|]. intros v st1 I1 F1 Hv. cbv beta match. apply good_ret; auto.
     + apply good_ret; auto.
   - (* SCall *)
     cbn [C17_Inv.sok_s] in Hs.
-    destruct (lookup n st) as [fn|] eqn:El; [|exact I]. pose proof (lookup_ok ca cd pf ls cs _ _ _ HI El) as Hfn.
-    assert (Hcall : post (good st sres_ok) (rbind (call_value Asp [] f fn n args st) (fun '(_, st1) => Ok (RNone, st1)))).
+    destruct (lookup n st) as [fn|] eqn:El; [|exact I]. pose proof (lookup_ok ca cd pf ls cs defs _ _ _ HI El) as Hfn.
+    assert (Hcall : post (good st sres_ok) (rbind (call_value Asp defs f fn n args st) (fun '(_, st1) => Ok (RNone, st1)))).
     { eapply good_bind; [apply IHC; auto|]. intros v st1 I1 F1 Hv. cbv beta match. apply ret_none; auto. apply frame_refl. }
     destruct fn; try exact Hcall.
     destruct (str_eqb n0 (s "subinclude")); [|exact Hcall].
     destruct args as [|[[k|] [[ | lbl | | | | | | | | | | | | | ] [|? ?] [?|]]] [|? ?]]; try exact I.
-    destruct (assoc_get lbl (subcache st)) as [globals|] eqn:Eg; [|exact I].
-    pose proof (assoc_get_ok ca cd pf _ _ _ (i_sub _ _ _ _ _ _ HI) Eg) as Hg.
-    destruct (set_vars_good ca cd pf ls cs globals st HI Hg) as [I1 F1]. apply ret_none; auto.
+    destruct (assoc_get lbl (subcache st)) as [globals|] eqn:Eg; [|rewrite (i_defs _ _ _ _ _ _ _ HI lbl Eg); exact I].
+    pose proof (assoc_get_ok ca cd pf _ _ _ (i_sub _ _ _ _ _ _ _ HI) Eg) as Hg.
+    destruct (set_vars_good ca cd pf ls cs defs globals st HI Hg) as [I1 F1]. apply ret_none; auto.
   - (* SAssert *)
     cbn [C17_Inv.sok_s] in Hs.
-    eapply good_bind; [apply (E_plain ca cd pf ls cs _ _ _ IHE); auto|]. intros v st1 I1 F1 Hv. cbv beta match.
+    eapply good_bind; [apply (E_plain ca cd pf ls cs defs _ _ _ IHE); auto|]. intros v st1 I1 F1 Hv. cbv beta match.
     destruct (truthy Asp st1 v); [|exact I]. apply ret_none; auto. apply frame_refl.
   - apply ret_none; auto. apply frame_refl.
   - apply good_ret; auto. exact I.
@@ -181,11 +183,11 @@ Proof.
   induction f as [|f IH].
   - constructor; intro; intros; exact I.
   - destruct IH as [HE HV HC HR HB HS]. constructor.
-    + apply (step_E ca cd pf ls cs); auto.
-    + apply (step_V ca cd pf ls cs); auto.
-    + apply (step_C ca cd pf ls cs); auto.
-    + apply (step_R ca cd pf ls cs); auto.
-    + apply (step_B ca cd pf ls cs); auto.
+    + apply (step_E ca cd pf ls cs defs); auto.
+    + apply (step_V ca cd pf ls cs defs); auto.
+    + apply (step_C ca cd pf ls cs defs); auto.
+    + apply (step_R ca cd pf ls cs defs); auto.
+    + apply (step_B ca cd pf ls cs defs); auto.
     + apply step_S; auto.
 Qed.
 
